@@ -21,10 +21,20 @@ type Val struct {
 	I    int64
 	F    float64
 	S    string
+	SHex string // the bytes of S in hex, when they are not valid UTF-8 (JSON could not carry them)
 	B    bool
 	Arr  []Val
 	Keys []Val // hash
 	Vals []Val
+}
+
+func (v Val) str() string {
+	if v.SHex != "" {
+		if b, err := hex.DecodeString(v.SHex); err == nil {
+			return string(b)
+		}
+	}
+	return v.S
 }
 
 func VInt(i int64) Val     { return Val{Kind: "int", I: i} }
@@ -43,7 +53,7 @@ func (v Val) Sexp() string {
 	case "float":
 		return fmt.Sprintf("(float %d)", math.Float64bits(v.F))
 	case "str":
-		return "(str " + hx(v.S) + ")"
+		return "(str " + hx(v.str()) + ")"
 	case "bool":
 		if v.B {
 			return "(bool 1)"
@@ -82,7 +92,7 @@ func (v Val) Object() object.Object {
 	case "float":
 		return &object.Float{Value: v.F}
 	case "str":
-		return &object.String{Value: v.S}
+		return &object.String{Value: v.str()}
 	case "bool":
 		return &object.Boolean{Value: v.B}
 	case "null":
@@ -131,7 +141,19 @@ type HV struct {
 	Entries  [][2]HV
 	To       *HV
 	Opaque   string // func chan complex array
+	SHex     string // for str: the bytes in hex, when they are not valid UTF-8 (JSON could not carry them in S)
 	Named    bool   // the Go type is a DEFINED type over the kind (type Level string, type Code int, ...): same value to a script
+}
+
+// strBytes: the string a `str` description stands for
+func (h HV) strBytes() string {
+	if h.SHex != "" {
+		b, err := hex.DecodeString(h.SHex)
+		if err == nil {
+			return string(b)
+		}
+	}
+	return h.S
 }
 
 // defined types over the basic kinds, as hosts declare them (`type Level string`)
@@ -160,7 +182,7 @@ func (h HV) Sexp() string {
 	case "f64":
 		return fmt.Sprintf("(f64 %d)", math.Float64bits(h.F))
 	case "str":
-		return "(str " + hx(h.S) + ")"
+		return "(str " + hx(h.strBytes()) + ")"
 	case "bool":
 		if h.B {
 			return "(bool 1)"
@@ -320,7 +342,7 @@ func (h HV) goValue() reflect.Value {
 	case "f32", "f64":
 		v.SetFloat(h.F)
 	case "str":
-		v.SetString(h.S)
+		v.SetString(h.strBytes())
 	case "bool":
 		v.SetBool(h.B)
 	case "time":
